@@ -1,0 +1,12 @@
+//go:build verif
+
+package basestore
+
+// VerifJoinIdle reports whether no join/merge is currently in progress (verification builds only).
+func (b *BaseStore) VerifJoinIdle() bool {
+	if b.muJoining.TryLock() {
+		b.muJoining.Unlock()
+		return true
+	}
+	return false
+}
